@@ -82,6 +82,36 @@ Proof.
       pose proof (IH _ _ _ _ _ _ Nr Nd E2) as L. inversion H; subst; assumption.
 Qed.
 
+(* UpdateNSTBalance: apart from a positive adjustment of asset a itself, the net ghost flow of a does not grow *)
+Lemma record_step_net a c s sk pend rk s2 p' : 0 < pend -> nn s /\ net a (glog s) <= c ->
+  nst_record_step s sk pend rk = Some (s2, p') -> nn s2 /\ net a (glog s2) <= c.
+Proof.
+  intros Hp [N L] H. split; [eapply record_step_nn; eauto|].
+  apply record_step_shape in H. destruct H as (r & s1 & G & _ & H). simpl in H. destruct H as (U & ->).
+  pose proof N as (_ & _ & _ & _ & Nu & _). pose proof (allv_sget _ _ _ _ Nu G) as Nr.
+  unfold ur_nn in Nr. rewrite andb_true_iff, !Z.leb_le in Nr. destruct Nr as [_ Nb].
+  apply upd_sa_log in U. unfold log_ev. simpl. rewrite U. unfold net in *. simpl. unfold if_eq.
+  destruct (0 <? pend - ur_act r); destruct (String.eqb (ur_asset r) a); lia.
+Qed.
+
+Lemma share_step_net a c s st a0 prop k row s' : nn s /\ net a (glog s) <= c ->
+  nst_share_step s st a0 prop k row = Some s' -> nn s' /\ net a (glog s') <= c.
+Proof.
+  intros [N L] H. split; [eapply share_step_nn; eauto|].
+  apply share_step_shape in H. destruct H as (o & sh & tok & s1 & s2 & z & s3 & s4 & H). simpl in H.
+  destruct H as (Go & Hs & Hle & Ht & U1 & U2 & U3 & U4 & ->).
+  pose proof N as (_ & No & _). pose proof (allv_sget _ _ _ _ No Go) as Nr.
+  unfold oa_nn in Nr. rewrite !andb_true_iff, !Z.leb_le in Nr.
+  assert (0 <= tok) as Htok.
+  { destruct (oa_tsh o =? sh); [inversion Ht; lia|]. eapply tokens_from_shares_nn; [| | |exact Ht]; lia. }
+  apply upd_oa_log in U1. apply upd_dg_log in U2. apply upd_sa_log in U4.
+  assert (glog s3 = glog s2) as L3.
+  { destruct z; [|inversion U3; subst; reflexivity]. unfold delete_staker in U3.
+    destruct (sget (sl s2) _); [|discriminate]. inversion U3; subst. reflexivity. }
+  unfold log_ev. simpl. rewrite U4, L3, U2, U1. unfold net in *. simpl. unfold if_eq.
+  destruct (String.eqb _ a); lia.
+Qed.
+
 Lemma step_net a s o : idx_inv s -> nn s -> wf_op o = true ->
   net a (glog (fst (step s o))) <= net a (glog s) \/ is_inflow_of a o = true.
 Proof.
@@ -180,7 +210,20 @@ Proof.
                 (fun s0 r _ G Q0 => process_net a _ s0 r Q0 G)
                 (fun s0 h Q0 => conj (w_height_nn h s0 (proj1 Q0)) (proj2 Q0)) s I (conj N (Z.le_refl _))) as (_ & Q & _).
     exact (proj2 Q).
-  - discriminate.
+  - (* NstBalance *)
+    destruct (String.eqb a asset && (0 <? x)) eqn:Ein; [right; unfold is_inflow_of; simpl; rewrite Ein; reflexivity|left].
+    destruct (nst_balance s staker asset x) as [s'|] eqn:E; simpl; [|lia].
+    refine (proj2 (nst_balance_P (fun s0 => nn s0 /\ net a (glog s0) <= net a (glog s)) s staker asset x s' (conj N (Z.le_refl _)) _ _ _ _ E)).
+    + intros s1 Hx U. split; [apply log_ev_nn; eapply upd_sa_nn; eauto|].
+      apply upd_sa_log in U. unfold log_ev. simpl. rewrite U.
+      apply Z.ltb_lt in Hx. rewrite Hx, andb_true_r in Ein. unfold net. simpl. unfold if_eq. rewrite String.eqb_sym, Ein. lia.
+    + intros info f s1 _ Gi Hf U. split; [apply log_ev_nn; eapply upd_sa_nn; eauto|].
+      assert (0 <= f) as Hf0.
+      { destruct Hf as [->|Hf]; [|lia]. destruct N as (Nsa & _). pose proof (allv_sget _ _ _ _ Nsa Gi) as Ni.
+        unfold sa_nn in Ni. rewrite !andb_true_iff, !Z.leb_le in Ni. lia. }
+      apply upd_sa_log in U. unfold log_ev. simpl. rewrite U. unfold net. simpl. unfold if_eq. destruct (String.eqb asset a); lia.
+    + intros s0 pend rk s2 p' Hp Q0 E0. eapply record_step_net; eauto.
+    + intros prop s0 k row s2 Q0 E0. eapply share_step_net; eauto.
 Qed.
 
 
